@@ -195,6 +195,7 @@ WF(s) ==
                     (i # j /\ s.members[i][2].kind = "object" /\ s.members[j][2].kind = "object" /\ s.members[i][2].layout # "map")
                         => s.members[i][2].layout # s.members[j][2].layout
       [] s.kind = "ref" -> TRUE                \* linked by the enclosing scope (WFScope)
+      [] s.kind = "refcut" -> TRUE
       [] s.kind = "scope" ->
             /\ \A i \in DOMAIN s.objects : s.objects[i].kind = "object" /\ WF(s.objects[i])
             /\ \A i, j \in DOMAIN s.objects : i # j => s.objects[i].id # s.objects[j].id
